@@ -91,6 +91,7 @@ func init() {
 	register("C13", "model_checking", func(run *ev.Run, tier string) string {
 		tags := own("catalog-coll", "err", "state", "count", "rawkeys", "indexquery", "catalog-index", "error-changed-state", "apply")
 		runSS(run, tier, []string{"names3", "names7"}, both, "", tags, nil)
+		eng.NameLengthSweep(run, both, map[string]int{"quick": 1200, "thorough": 2500}[tier], tags)
 		// DropCollection / re-creation of a multi-page collection beside a prefix-named sibling collection
 		eng.BulkSweep(&eng.BulkConfig{Backends: both, Sizes: sizesUpTo(map[string]int{"quick": 72, "thorough": 300}[tier]), Pads: []int{0}, IndexSets: [][]string{{}, {"x"}},
 			Ops: eng.BulkOpsNamed("drop-and-recreate", "delete-all")}, run, tags)
@@ -107,6 +108,8 @@ func init() {
 	})
 	register("C12", "model_checking", func(run *ev.Run, tier string) string {
 		runSS(run, tier, []string{"ids", "idforms"}, both, "", own("id", "err", "state", "apply", "error-changed-state", "rawkeys", "count", "indexquery"), nil)
+		// a duplicate or malformed _id late in a batch of more than a thousand documents: ErrDuplicateKey / an error, and nothing changed
+		bigBatchInvalidSizes(run, []int{1100, 2300}, []string{"last"}, []string{"dup-in-batch", "dup-stored", "malformed"})
 		return "breadth-first search to a fixpoint over an _id-focused alphabet on two collections sharing ids: inserts with supplied / missing / empty / malformed / non-string / duplicate ids (duplicates at every batch position), Save (new, existing, unknown id), ReplaceById (matching, mismatching), UpdateById/Update/UpdateFunc rewriting _id to an existing, a new and an invalid id; invariant in every state: FindById(c,id) is nil or has _id == id and is non-nil exactly for live ids, contents equal the reference model, generated ids are fresh canonical UUIDs"
 	})
 	register("C09", "model_checking", func(run *ev.Run, tier string) string {
